@@ -53,7 +53,7 @@ REQUIRED_PROBES = {"quick": ["lookup_served_from_cache", "definition_after_first
                              "value_matches_own_definition", "convert_zoneinfo", "convert_pytz",
                              "reparse_of_serialisation", "interleaved_clients", "until_rule", "count_rule",
                              "rdate_observance", "two_eras", "no_tzname", "slash_prefixed_id", "parsed_with_multiple",
-                             "utc_instant_family"]}
+                             "utc_instant_family", "convert_with_process_wide_provider"]}
 REQUIRED_PROBES["thorough"] = REQUIRED_PROBES["quick"]
 
 # "sim/a" / "SIM/B" / "SÏM/Ü": other ids than "Sim/A" / "Sim/B" / "Sïm/Ü" (ids are compared as they are written)
@@ -128,7 +128,9 @@ def generate(rng, cfg):
             slots[(c, slot)] = True
             trace.append([c, "parse_doc", {"doc": rng.randrange(docs), "slot": slot}])
         elif op == "convert":
-            trace.append([c, "convert", {"def": rng.randrange(len(defs)), "provider": rng.choice(["zoneinfo", "pytz"])}])
+            # with a provider object of its own, or with the process-wide one (whatever provider that is just now)
+            trace.append([c, "convert", {"def": rng.randrange(len(defs)), "provider": rng.choice(["zoneinfo", "pytz"]),
+                                         "global": rng.random() < 0.5}])
         elif op == "provider_switch":
             trace.append(["env", "provider_switch", {"p": rng.choice(["zoneinfo", "pytz"])}])
         else:
@@ -430,13 +432,20 @@ def execute(run, res):
             if a["def"] >= len(defs):
                 res.skipped += 1
                 continue
+            if a.get("global"):
+                a = dict(a, provider=world.provider_name())
             res.ops[op + ":" + a["provider"]] += 1
             d = defs[a["def"]]["def"]
             _probe_shape(res, defs[a["def"]])
             try:
                 comp = Timezone.from_ical(zonegen.vtimezone_text(d))
                 cache.define(d["tzid"], a["def"])      # from_ical caches as a side effect
-                tz = comp.to_tz(TZP(a["provider"]), lookup_tzid=False)
+                if a.get("global"):
+                    from icalendar.timezone import tzp as _global_tzp
+                    tz = comp.to_tz(_global_tzp, lookup_tzid=False)
+                    res.probe("convert_with_process_wide_provider")
+                else:
+                    tz = comp.to_tz(TZP(a["provider"]), lookup_tzid=False)
             except Exception as e:
                 res.violate(f"C12/convert/{a['provider']}/raised:{type(e).__name__}", stepno, repr(e)[:300])
                 continue
